@@ -17,8 +17,9 @@
 //	O3  every single-byte change of the signed content of an accepted transaction, and every
 //	    change of a counted signature after which the crypto library no longer verifies it under a
 //	    key of its set, is rejected;
-//	O4  the validator returns (no panic), and VerifyTransaction's code is ErrNoError exactly when
-//	    checkTransactionSignatures returned nil.
+//	O4  the validator returns (no panic: any panic is a failing input, incl. the two classes
+//	    repaired by c4422b91 whose witnesses are replayed first from corpus/C16), and
+//	    VerifyTransaction's code is ErrNoError exactly when checkTransactionSignatures returned nil.
 package c16
 
 import (
